@@ -8,4 +8,7 @@ for p in "$@"; do
   ( cd /verif && ./check $p 2>&1 | grep -E "^(OK|VIOLATION|KNOWN)" | head -3 )
 done
 git -C /repo checkout -- .
+git -C /repo clean -fdq
 git -C /repo status --short | head -3
+# the evidence files are rewritten by every run: restore them from the unchanged tree
+( cd /verif && python3 tools/translate.py /repo coq/gen > /dev/null; for p in "$@"; do ./check $p > /dev/null 2>&1; done )
